@@ -156,10 +156,12 @@ let m_find0 last cs h nd =
     ( find_pn0 cs h nd.arr_p nd.count, find_s0 cs h nd.str, find_z0 cs h nd.arr_z,
       (match nd.one with Some c -> Some (find_char0 cs h c) | None -> None) )
 
+let rec fast_nat acc = function O -> acc | S m -> fast_nat (acc + 1) m
 let s_find last ci h nd pos =
-  let f n = int_of_z (idx ((if last then find_last_spec else find_spec) ci h n pos)) in
+  let f n = match (if last then find_last_spec else find_spec) ci h n pos with Some i -> fast_nat 0 i | None -> -1 in
   let p = if nd.null then -1 else f nd.str in
-  (p, p, f nd.zv, (match nd.one with Some _ -> Some p | None -> None))
+  let z = if (not nd.null) && nd.zv = nd.str then p else f nd.zv in
+  (p, p, z, (match nd.one with Some _ -> Some p | None -> None))
 
 let pr4 suffix (p, s, z, c) =
   Printf.sprintf "p%s=%s s%s=%s z%s=%s c%s=%s" suffix p suffix s suffix z suffix (match c with Some v -> v | None -> "x")
@@ -228,7 +230,10 @@ let needle_tok alpha k =
 let positions size =
   List.init (size + 2) (fun i -> n_of_int i) @ [ n_of_string "9223372036854775808"; n_of_string "18446744073709551615" ]
 
-let geti o = match o with Ok v -> int_of_z v | _ -> raise (Bad (pr_outcome (fun _ -> "") o))
+(* small results: direct conversion (no zarith round trip) *)
+let rec fast_pos = function XH -> 1 | XO p -> 2 * fast_pos p | XI p -> 2 * fast_pos p + 1
+let fast_z = function Z0 -> 0 | Zpos p -> fast_pos p | Zneg p -> - (fast_pos p)
+let geti o = match o with Ok v -> fast_z v | _ -> raise (Bad (pr_outcome (fun _ -> "") o))
 let getb o = match o with Ok b -> b2i b | _ -> raise (Bad (pr_outcome (fun _ -> "") o))
 
 let do_sweep a =
